@@ -317,8 +317,11 @@ def confirm_and_report(rep, fails, rejudge):
     """Every signature's kept example is re-judged with real process spawns; it is reported only
     if the same signature comes back. A candidate that real processes do not reproduce means the
     batch hook and the executable disagree -> machinery error, never a verdict."""
-    for sig, (n, size, ex) in sorted(fails.items()):
-        sigs = rejudge(ex, spawn_runner)
+    from concurrent.futures import ThreadPoolExecutor
+    items = sorted(fails.items())
+    with ThreadPoolExecutor(8) as pool:      # spawns are slow under load; a few in flight keeps confirmation time bounded
+        results = list(pool.map(lambda it: rejudge(it[1][2], spawn_runner), items))
+    for (sig, (n, size, ex)), sigs in zip(items, results):
         if sig not in sigs:
             raise common.Machinery(f"violation candidate {sig!r} not reproduced by real process spawns (got {sorted(sigs)!r}); example {json.dumps(ex, ensure_ascii=False)[:300]}")
         rep.fail(sig, size, ex)
@@ -328,7 +331,10 @@ def confirm_and_report(rep, fails, rejudge):
 
 def replay(rep, ctx, rejudge):
     """Replay protocol: the recorded case is re-judged twice with real process spawns."""
-    case = json.load(open(ctx["replay"]))["case"]
+    try:
+        case = json.load(open(ctx["replay"]))["case"]
+    except (OSError, ValueError, KeyError) as e:
+        raise common.Machinery(f"cannot read replay file {ctx['replay']}: {e}")
     rep.space("replay")
     a = rejudge(case, spawn_runner)
     b = rejudge(case, spawn_runner)
